@@ -29,6 +29,7 @@ from . import findings as _findings
 
 NPROC = int(os.environ.get("MC_NPROC", "16"))
 STATE_TIMEOUT_S = int(os.environ.get("MC_STATE_TIMEOUT", "120"))
+REPLAY_ROOT = os.environ.get("MC_REPLAY_DIR", "replays")  # scratch runs against mutants use their own
 DOUBLE_RUN = 24  # number of leading states executed twice (determinism of the harness)
 
 
@@ -169,7 +170,7 @@ def explore(prop: Property, tier: str, seed: int = 0, verbose: bool = True) -> i
 
     known = _findings.load(prop.id)
     import shutil
-    shutil.rmtree(os.path.join("replays", prop.id), ignore_errors=True)
+    shutil.rmtree(os.path.join(REPLAY_ROOT, prop.id), ignore_errors=True)
     ctx = mp.get_context("fork")
     pool = ctx.Pool(NPROC)
 
@@ -372,7 +373,7 @@ def _record(prop, v, h, known, known_hits, groups):
 
 
 def _write_replay(prop, tier, b, g):
-    d = os.path.join("replays", prop.id)
+    d = os.path.join(REPLAY_ROOT, prop.id)
     os.makedirs(d, exist_ok=True)
     rec = {"property": prop.id, "tier": tier, "history": g["history"], "violation": g["v"],
            "states_with_this_signature": g["count"], "tree": _tree_id()}
